@@ -11,7 +11,8 @@ RULE = ("FaceVec records = real Grid.diff/interp of one component along its own 
         "right-staggered components, extra dims, every rule on open edges; expectation = the value the neighbouring "
         "face stores for the shared edge, found by TLC from the orientations; VecPlain records = {axis: u} vs u on "
         "grids without face connections; Vec2D records = real diff_2d_vector / interp_2d_vector calls, both entries "
-        "validated as the one-component calls they stand for; non-trivial = distinct (decomposition, component, op, staggering)")
+        "validated as the one-component calls they stand for; non-trivial = distinct (decomposition, component, op, staggering)"
+        ' Also: partner components without the extra dimension, components of different dtypes (an integer component next to a partner with fractional values), tables in any insertion order with Python or numpy flags.')
 
 
 def gen_vec(rng, cid, nmax=3, two=False):
